@@ -281,6 +281,11 @@ func cutoffs(bs []blockInfo) (rw int64, ro []int64) {
 	if len(bs) == 0 {
 		ro = []int64{math.MinInt64}
 	}
+	// Since the repair 1f4d4233ae the read-only open uses the read-write rule.  The old rule above
+	// is kept for reference only: with ro == {rw} no difference is explained by a cut-off
+	// mismatch any more, so a regression to the old behaviour shows up as ro-rw-mismatch.
+	_ = maxMin
+	ro = []int64{rw}
 	return
 }
 
